@@ -34,6 +34,7 @@ const (
 	BehError
 	BehPartialThenError // streams: deliver some items, then an error
 	BehHang             // block until ctx is cancelled, then return ctx.Err()
+	BehNoClient         // the node is unknown to its peers: no injected client and no address to dial
 )
 
 var ErrInjected = errors.New("injected failure")
@@ -92,7 +93,7 @@ type Cluster struct {
 func NodeID(i int) uint64 { return uint64(7001 + 13*i) }
 
 // New builds the cluster. placement[p] lists node indexes hosting partition p.
-func New(nNodes int, dim int, metric int, placement [][]int) *Cluster {
+func New(nNodes int, dim int, metric int, placement [][]int, unreachable ...int) *Cluster {
 	c := &Cluster{Beh: map[uint64]Behaviour{}}
 	c.Meta = pb.Dataset{Id: gen.ID(424242).Bytes(), Dimension: uint32(dim), Space: pb.Space(metric), PartitionCount: uint32(len(placement)), ReplicationFactor: 1}
 	for p, nodes := range placement {
@@ -125,12 +126,25 @@ func New(nNodes int, dim int, metric int, placement [][]int) *Cluster {
 		n.Data = services.NewDataManagerServer(n.DM)
 		c.Nodes = append(c.Nodes, n)
 	}
+	un := map[int]bool{}
+	for _, u := range unreachable {
+		un[u] = true
+	}
+	c.Wire(un)
+	return c
+}
+
+// Wire injects the client shims; nodes listed in unreachable get none (their
+// peers then have neither a client nor an address for them).
+func (c *Cluster) Wire(unreachable map[int]bool) {
 	for _, from := range c.Nodes {
-		for _, to := range c.Nodes {
+		for i, to := range c.Nodes {
+			if unreachable[i] && from != to {
+				continue
+			}
 			from.Dataset.VerifSetClients(to.Id, &searchShim{c: c, from: from, to: to}, &dataShim{c: c, from: from, to: to})
 		}
 	}
-	return c
 }
 
 func cloneMeta(m *pb.Dataset) *pb.Dataset {
